@@ -24,13 +24,23 @@ also over bytearray and array.array), multi-dimensional, 0-dimensional, sliced a
 every call form alike) for every type kind - scalars, enums, char, fixed / 2-d / null-terminated arrays, typedefs (of typedefs) of
 them, structures and unions around them - with lengths at which the ITEM count or first dimension equals the type size; every
 call form must give what the reference parser gives for view.tobytes().  A sample of these views also joins the generic matrix.
+Mixed alignment modes (harness/v4_c09.py:run_mixed): definitions whose sub-structures are loaded with their own `align` flag on one
+cstruct instance - directed chains of 1..3 packed wrappers (leading small members, the child or an array of it, further fixed-size
+members; hoisted or inline) around a structure loaded with align=True that so sits at an odd offset, two to four levels deep, plus
+s1_mixed.directed_dynamic / directed_bits and random trees split by defs.hoist(mixed=True) - parsed by the compiled and the
+interpreted reader from the same bytes at start positions 0, 1, 2, 3, 5, 8 (an aligned top-level structure: those multiples of its
+alignment) through every stream kind x call form, and as the bytes from p onward through every buffer kind x call form.  An abstract
+walk of the reader over the real classes says which parts of the value (and whether the final position) are read at a position that
+cannot depend on p - everything but what lies behind an aligned structure at a misaligned position with no seek to a layout offset in
+between (known finding F43) - and those must agree for every p; differences confined to the rest are classified under F43.  Every
+case is also sent to the Lean model of the reader (per-structure align flags, absolute positions).
 """
 from __future__ import annotations
 
 import io
 import itertools
 
-from .. import defs, impl, refimpl, s3_c09, u2_c09
+from .. import defs, impl, refimpl, s3_c09, u2_c09, v4_c09
 from ..common import Result, mkrng
 from ..structprops import Engine, load, real_parse, rand_bytes, has_eof
 
@@ -282,6 +292,11 @@ def run(env) -> Result:
                 "Aligned records ending in a dynamically sized member (valid by construction; stream position against the reference encoded size, "
                 "compiled against interpreted reader, back-to-back reads, T[k]). Memoryviews with multi-byte items / several dimensions / no "
                 "dimension / slices / strides x every type kind incl. char arrays and typedefs, lengths where the item count equals the type size. "
+                "Mixed alignment modes: sub-structures loaded with their own align flag (packed wrappers 1..3 deep around an aligned structure at "
+                "an odd offset, followed by fixed-size members; directed dynamic / bit-field shapes; random hoisted trees) x {compiled, "
+                "interpreted} x start positions 0,1,2,3,5,8 x stream kinds x call forms, and the bytes from p onward x buffer kinds x call forms: "
+                "every part of the value read at a position that cannot depend on p (all but what lies behind a misplaced aligned structure "
+                "before the next seek, F43) and the consumed count must agree; each case also against the Lean model. "
                 "distinct = (definition, config, input, offset, kind); non-trivial = offset > 0 or a non-bytes input kind")
     eng = Engine(env, res, "C09")
     rnd = mkrng(env["seed"], "c09")
@@ -316,6 +331,7 @@ def run(env) -> Result:
     u2_c09.run_kinds(env, eng, res, mkrng(env["seed"], "c09-kinds"))
     run_unions(env, eng, res, mkrng(env["seed"], "c09-unions"))
     run_long(env, eng, res, mkrng(env["seed"], "c09-long"))
+    v4_c09.run_mixed(env, eng, res, mkrng(env["seed"], "c09-mixed"))
     return res
 
 
